@@ -271,7 +271,7 @@ Theorem step_refines v o : wf v ->
   | UB => False
   end.
 Proof.
-  intros W. destruct o as [x| |i x|i|n| |i x|spare xs|]; cbn [step spec_step].
+  intros W. destruct o as [x| |i x|i|n| |i x|spare xs| |]; cbn [step spec_step].
   - destruct (push_ok v x W) as (v' & E & W' & A). rewrite E, A. auto.
   - destruct (pop_ok v W) as (v' & r & E & W' & M). rewrite E.
     destruct (rev (abs v)); destruct M as (-> & ->); auto.
@@ -289,6 +289,10 @@ Proof.
     + rewrite R. auto.
   - rewrite (drop_ok v W). destruct (from_vec_wf spare xs) as (W' & A). rewrite A. auto.
   - rewrite (read_ok v W). auto.
+  - assert (R : region (buf v) 0 (len v) = Some (abs v)) by (destruct W as (Hl & Hc & Ha); apply region_0; lia).
+    rewrite R. destruct (existsb poison (abs v)).
+    + auto.
+    + destruct (clone_ok v W) as (c & E & Wc & A). rewrite E, (drop_ok v W), A. auto.
 Qed.
 
 (* Lift to whole scripts: the model's output equals the specification's output. *)
@@ -331,6 +335,7 @@ Definition entered (l : list Z) (o : vop) : list Z :=
   | VInsert i x => [x]
   | VWrite i x => [x]
   | VClone => l
+  | VCloneP => if existsb poison l then cloned_before l else l
   | VFromVec _ xs => xs
   | _ => []
   end.
@@ -352,7 +357,7 @@ Lemma spec_step_conserves l o :
   let '(l', (r, ds), _) := spec_step l o in
   Permutation (l ++ entered l o) (l' ++ returned r ++ ds).
 Proof.
-  destruct o as [x| |i x|i|n| |i x|spare xs|]; cbn [spec_step entered returned].
+  destruct o as [x| |i x|i|n| |i x|spare xs| |]; cbn [spec_step entered returned].
   - now rewrite !app_nil_r.
   - destruct (rev l) eqn:R.
     + reflexivity.
@@ -378,6 +383,7 @@ Proof.
     + reflexivity.
   - cbn [returned app]. apply Permutation_app_comm.
   - cbn. now rewrite !app_nil_r.
+  - destruct (existsb poison l); cbn [returned app]; reflexivity.
 Qed.
 
 (* Over any script (ending with the drop of the vector): everything that was in the
